@@ -115,5 +115,21 @@ CHECKS["C11"] = dict(level="model_checking", design_ref="DESIGN.md 5/C11",
          "exact eigenvector gives E_L = E for every walker; (c) read_dets parses every byte pattern of a 2x3 file to exactly the written "
          "state; (d) get_fci_state preserves determinants/coefficients and orders by |coeff|.",
     note=_WF_NOTE + " pyscf's FCI solver and whole driver runs are outside; file model: header ints concrete, coefficients opaque reals, occupation bytes symbolic.")
-for k in ("C01","C02","C03","C04","C05","C07","C09","C11","C13","C14","C15","C19","C20"): NA.pop(k, None)
+CHECKS["C17"] = dict(level="model_checking", design_ref="DESIGN.md 5/C17",
+    technique="path exploration of the real NumPy loop / the traced lax.scan on symbolic M = B B^T (pivot searches and loop exits are z3-decided splits); z3 nonlinear real arithmetic per path",
+    text="pyscf_interface.modified_cholesky runs unmodified on object arrays of exact rational-function scalars (x**0.5 an atom reduced "
+         "modulo s^2 = x): on every feasible path |M - sum L L^T| <= max_error element-wise for ALL B and thresholds >= 1e-8, for n = 1, 2 "
+         "(every rank) and n = 3 rank 1; linalg_utils.modified_cholesky's jaxpr is interpreted with path splits at argmax: exact "
+         "reconstruction when nchol_max = rank, and the JVP of the reconstruction equals dM; the symmetrisation feeding it in "
+         "propagate_phaseless_ad_1 is the 4-fold symmetrisation. chunked_cholesky (pyscf integrals) is not applicable.",
+    note="Trusted: z3 NRA, exact reals, PX shims. Thresholds below 1e-8 outside (the routine's 1e-10 pivot regularisation); n <= 3.")
+CHECKS["C18"] = dict(level="model_checking", design_ref="DESIGN.md 5/C18",
+    technique="symbolic execution of jax.jvp(_eigh) and of optimize() with jnp.linalg.eigh replaced by its contract + z3 identities / linear arithmetic",
+    text="(1) the custom JVP of _eigh satisfies the defining equations of the eigenvalue/eigenvector derivative for all symmetric dA and all "
+         "spectra with gaps >= the code's threshold (symbolic orthogonal V at n=2, rational instances at n=3); (2) for EVERY ascending "
+         "spectrum (equal, nearly equal) no denominator of the rule is zero, so it stays finite; (3) in rhf/uhf.optimize every matrix handed "
+         "to _eigh is the Fock matrix of the current density by definition (spin resolved for uhf) and the returned orbitals are "
+         "orthonormal, for all Hamiltonians and initial orbitals. Convergence / fixed point / agreement with an independent SCF: not claimed.",
+    note=_WF_NOTE + " eigh is a contract stub (LAPACK not verified); n_opt_iter = 2.")
+for k in ("C01","C02","C03","C04","C05","C07","C09","C11","C13","C14","C15","C17","C18","C19","C20"): NA.pop(k, None)
 ENGINES[0]["serves_properties"] = sorted(CHECKS)
